@@ -10,7 +10,7 @@ def classify(rec, v):
 
 def run(out, tier):
     rendercheck.run_focus(
-        out, "C03", "clip", tier, 2000, 15000,
+        out, "C03", "clip", tier, 2000, 12000,
         "documents drawn by TLC -simulate from Build.tla (Focus=clip: clipPath with 1-3 children "
         "incl. self-intersecting and multi-contour polygons and use, clip-rule on child or clipPath, "
         "transform on clipPath and children, clipPath clipped by another clipPath, clip-path on "
